@@ -30,3 +30,13 @@ chk("C14", "static analysis: MIR delegation rules and one-step protocol decision
     "the 13 StdParser::parse_with impls must return the matching parse_* call. Covers all strings/patterns symbolically.",
     "Trusted: rustc MIR. The results of the string functions themselves are C04/C05/C12; histories follow by induction over "
     "the one-step tables (written argument, DESIGN.md App. D).")
+chk("C16", "static analysis: MIR decision tables vs Ord/PartialEq, lexicographic-placement rule, loop-exit tables with derived counter invariant",
+    "Every cmp_*/eq_*/const_cmp/const_eq function (about 400: scalars, NonZero, bool, char, Ordering, ranges, Options, "
+    "CmpWrapper impls) is inlined to primitive comparisons and compared with Ord/PartialEq for every order type of its "
+    "operands and every Some/None combination, with operand order (left,right) checked; slice/str orderings must not decide "
+    "from the lengths before the element loop (LEX) and their loop-exit tables (first differing element, prefix exhausted -> "
+    "lengths; counter starts at 0, +1, guarded) must be lexicographic; equality loops likewise; U8Ordering constants/mapping. "
+    "Symbolic in all values, so it covers the pairs tests cannot enumerate.",
+    "Trusted: rustc MIR; the step from one-iteration tables to the whole loop is the standard induction on the counter "
+    "(premises checked: init 0, +1, guard). assertc_eq!/assertc_ne! polarity and the const_eq!/const_cmp! coercion macros are "
+    "covered only through the functions they expand to.")
